@@ -21,6 +21,8 @@ vocabulary (say a module switch that guards a log line) is automatically "forked
 from __future__ import annotations
 
 import ast
+import os
+import re
 import copy
 from dataclasses import dataclass, field
 from typing import Callable
@@ -48,6 +50,10 @@ def is_pure_call(call: ast.Call) -> bool:
     if isinstance(f, ast.Attribute):
         return f.attr in PURE_METHODS
     return False
+
+
+NEVER_NONE_BUILTINS = frozenset({'open', 'len', 'int', 'float', 'str', 'bytes', 'bytearray', 'memoryview', 'list', 'dict', 'set', 'frozenset', 'tuple', 'sorted', 'reversed',
+                                 'enumerate', 'zip', 'range', 'repr', 'isinstance', 'issubclass', 'bool', 'abs', 'sum', 'iter', 'id', 'hash', 'callable', 'type'})
 
 
 def has_impure_call(node: ast.AST) -> bool:
@@ -177,7 +183,8 @@ class Evaluator:
         self.max_paths = max_paths
         self.cls_ctx = cls_ctx              # for private-name mangling
         self.scope_node = None
-        self.explore_handlers = False       # also enter every except handler of a try from the state at the start of its body ("something in the body raised")
+        self.explore_handlers = True        # also enter every except handler of a try from the state at the start of its body ("something in the body raised")
+        self.havoc_self_calls = True        # a non-inlined self.m() call invalidates what is known about the attributes m may store
         self.keep_names_for_calls = False   # bind `x = impure_call()` as the opaque name x (readable terms for E5)
         self.simplify = False               # fold conditionals/subscripts/bit-ops whose operands are literal (scenario evaluation)
         self.const_tables = {}              # name -> dict literal (python value) usable by Subscript folding
@@ -512,6 +519,8 @@ class Evaluator:
                 kt = self.known_truth(tnode, path)
                 if kt is not None or isinstance(tnode, (ast.Dict, ast.List, ast.Tuple, ast.Lambda, ast.JoinedStr, ast.ListComp, ast.DictComp, ast.Compare)):
                     return [(path, neg)]   # a literal / display / comparison result is never None
+                if isinstance(tnode, ast.Call) and isinstance(tnode.func, ast.Name) and tnode.func.id in NEVER_NONE_BUILTINS:
+                    return [(path, neg)]   # open() / len() / int() ... return an object or raise
                 if isinstance(tnode, (ast.IfExp,)):
                     out = []
                     for p, b in self.cond_resolved(tnode.test, path):
@@ -779,6 +788,10 @@ class Evaluator:
             txt = U(rc)
             for k in [k for k in path.facts if txt in k]:
                 del path.facts[k]
+        if self.havoc_self_calls and isinstance(rc, ast.Call) and isinstance(rc.func, ast.Attribute) and isinstance(rc.func.value, ast.Name) and rc.func.value.id == 'self':
+            mods = self._self_modset(rc.func.attr)
+            if mods:
+                self._havoc(path, mods)
         outs = None
         if self.call_oracle is not None and isinstance(rc, ast.Call):
             outs = self.call_oracle(call, rc, path, ev)
@@ -793,6 +806,59 @@ class Evaluator:
             res.append(p)
         self._count(len(res))
         return res
+
+    # a call of another method of the same object may store into the object's attributes: what the path knew about them (facts,
+    # aliases of locals to their old values, heap entries) no longer holds after the call
+    _MUTATORS = ('append', 'extend', 'insert', 'pop', 'clear', 'remove', 'add', 'discard', 'update', 'setdefault', 'popitem', 'sort', 'reverse', 'appendleft', 'popleft')
+
+    def _self_modset(self, meth: str) -> frozenset:
+        cls = None
+        n = self.scope_node
+        while n is not None and not isinstance(n, ast.ClassDef):
+            n = getattr(n, '_parent', None)
+        cls = n
+        if cls is None:
+            return frozenset()
+        cache = self.repo.__dict__.setdefault('_modsets', {})
+        key = (id(cls), meth)
+        if key in cache:
+            return cache[key]
+        cache[key] = frozenset()      # recursion guard
+        fn = next((x for x in cls.body if isinstance(x, (ast.FunctionDef, ast.AsyncFunctionDef)) and x.name == meth), None)
+        out = set()
+        if fn is not None:
+            for x in ast.walk(fn):
+                tg = x.targets if isinstance(x, (ast.Assign, ast.Delete)) else [x.target] if isinstance(x, (ast.AugAssign, ast.AnnAssign, ast.NamedExpr)) else []
+                for t in tg:
+                    for tt in (t.elts if isinstance(t, (ast.Tuple, ast.List)) else [t]):
+                        r = tt
+                        while isinstance(r, ast.Subscript):
+                            r = r.value
+                        if isinstance(r, ast.Attribute) and isinstance(r.value, ast.Name) and r.value.id == 'self':
+                            out.add(r.attr)
+                if isinstance(x, ast.Call) and isinstance(x.func, ast.Attribute):
+                    r = x.func.value
+                    while isinstance(r, ast.Subscript):
+                        r = r.value
+                    if x.func.attr in self._MUTATORS and isinstance(r, ast.Attribute) and isinstance(r.value, ast.Name) and r.value.id == 'self':
+                        out.add(r.attr)
+                    if isinstance(x.func.value, ast.Name) and x.func.value.id == 'self':
+                        out |= self._self_modset(x.func.attr)
+        cache[key] = frozenset(out)
+        return cache[key]
+
+    def _havoc(self, path: Path, attrs) -> None:
+        pats = [re.compile(r'\bself\.' + re.escape(a) + r'\b') for a in attrs]
+        hit = lambda txt: any(p_.search(txt) for p_ in pats)
+        for k in [k for k in path.facts if hit(k)]:
+            del path.facts[k]
+        for k in [k for k in path.ivals if hit(k)]:
+            del path.ivals[k]
+        for k in [k for k in path.heap if hit(k)]:
+            del path.heap[k]
+        for fr in path.frames:
+            for name in [n for n, v in fr.items() if isinstance(v, ast.AST) and hit(U(v))]:
+                del fr[name]          # the local keeps its (old) value as an opaque symbol; it is no longer an alias of self.<attr>
 
     # ------------------------------------------------------------------------------------------------ statements
 
